@@ -45,6 +45,19 @@ theorem C18_layout (bs : List (Arr α)) (cs : List (Arr (Cx α))) :
   · rfl
   · simp [x0flat, prepare, splitVal, ravel, splitArr, List.map_map, Function.comp_def]
 
+/-- index form for a complex array with `m` entries: flat coordinate `p < m` is `Re z_p`, flat
+    coordinate `m + p` is `Im z_p` (row-major order of the entries) -/
+theorem C18_layout_array (a : Arr (Cx α)) (p : Nat) (hp : p < a.data.length) :
+    (x0flat (.cplx (.arr a)))[p]? = some (a.data[p]).re ∧
+    (x0flat (.cplx (.arr a)))[a.data.length + p]? = some (a.data[p]).im := by
+  have e : x0flat (.cplx (.arr a)) = a.data.map Cx.re ++ a.data.map Cx.im := rfl
+  rw [e]
+  constructor
+  · rw [List.getElem?_append_left (by simpa using hp)]
+    simp [hp]
+  · rw [List.getElem?_append_right (by simp)]
+    simp [hp]
+
 /-- the function handed to scipy is `func ∘ join ∘ reshape`: at the flattening of any container
     `c` of the form of `x0` it takes the value `func c` (in particular at `x0` itself) -/
 theorem C18_objective {ρ : Type} (func : Container α → ρ) (c0 c : Container α) (hwf : c.WF)
@@ -65,6 +78,20 @@ theorem C18_bijection (c0 : Container α) (hwf0 : c0.WF) :
     rw [total_workShape_eq c hc, hf.1]
   · intro v hv
     exact x0flat_result c0 hwf0 v hv
+
+/-- changing one coordinate `j` of the flat vector changes the argument of `func` along the path of
+    containers whose flattening differs in coordinate `j` only — by `C18_layout` that coordinate is the
+    real or the imaginary part of one entry.  Hence the `j`-th partial derivative of the flat objective
+    is the derivative of `func` with respect to that one real slot (`∂/∂re`, `∂/∂im`). -/
+theorem C18_coordinate_path {ρ : Type} (func : Container α → ρ) (c0 c : Container α) (hwf0 : c0.WF)
+    (hwf : c.WF) (hform : SameForm c c0) (j : Nat) (a : α) :
+    ∃ c', result c0 ((x0flat c).set j a) = some c' ∧ c'.WF ∧ SameForm c' c0 ∧
+      x0flat c' = (x0flat c).set j a ∧
+      objective func c0 ((x0flat c).set j a) = some (func c') := by
+  have hlen : ((x0flat c).set j a).length = total (workShape c0) := by
+    rw [List.length_set, total_workShape_eq c hwf, hform.1]
+  obtain ⟨c', hc', hfl, hw, hf⟩ := x0flat_result c0 hwf0 _ hlen
+  exact ⟨c', hc', hw, hf, hfl, by simp [objective, hc']⟩
 
 /-- therefore: what scipy reports as a minimiser of the flat objective is returned as a
     minimiser of `func` among all containers of the form of `x0` -/
@@ -149,7 +176,7 @@ def exC : Val (Cx Int) := .blk [⟨[2], [⟨1, 2⟩, ⟨3, 4⟩]⟩, ⟨[], [⟨
 
 example : exC.WF := by
   intro b hb
-  simp [exC] at hb
+  simp at hb
   rcases hb with rfl | rfl <;> rfl
 
 -- a complex block array ((2,),()) is handed to scipy as [1,3,2,4,5,6] and comes back unchanged
